@@ -167,6 +167,10 @@ def run(tier, seed):
     config("std256", quick)
     if not quick:
         config("b12-381", False, scale=0.6)
+    if os.environ.get("C11_EXT") != "0":
+        # extension part (C11_EXT=0 switches it off - a debugging aid): twists over F_p3 / F_p4 at the other pairing field sizes
+        from vlib import c11_ext
+        c11_ext.run_ext(ev, conf, wd, rng, quick, cover)
     ev.cov["curves"] = cover
     return conf.finish()
 
